@@ -60,6 +60,20 @@ def generate(rng, tier):
         if len(pts) >= 3:
             k = rng.randint(3, len(pts)); a = rng.randint(0, len(pts) - k)
             cases.append({"kind": "p", "pts": pts[a:a + k], "tol": tol if tol > 0 else F(1), "family": "predicate"})
+    # drawings far from the origin with a fine tolerance (coordinates 10^6 .. 10^9, tolerance 10^-3 .. 10^-1): consecutive vertices that are
+    # a few tolerances apart are "equal" to nine significant digits, yet they are distinct points and a jog of five tolerances is a jog
+    for _ in range(max(10, n // 25)):
+        base = F(10) ** rng.choice([6, 7, 8, 9]) * rng.choice([1, 3]); tol = F(1, rng.choice([10, 100, 1000]))
+        bx, by = base + rng.randint(0, 999), (base if rng.random() < 0.7 else F(rng.randint(-50, 50)))
+        pts = [(bx, by)]
+        x, y = bx, by
+        for _ in range(rng.randint(2, 7)):
+            k = rng.random()
+            if k < 0.4: x, y = x + tol * rng.choice([0, 0, 1, -2]), y + tol * rng.choice([5, -5, 3, 12])          # a sideways jog of a few tolerances
+            elif k < 0.7: x, y = x + rng.randint(1, 20), y + tol * F(rng.randint(-9, 9), 10)                         # along the stroke, within tolerance
+            else: x, y = x + rng.randint(-10, 10), y + rng.randint(1, 10)
+            pts.append((x, y))
+        cases.append({"kind": "s", "pts": pts, "tol": tol, "family": "far-from-origin/fine-tolerance"})
     # long removable runs (over-sampled strokes: 64..300 vertices within tolerance of one segment) ending in a corner, a zig-zag or a hook:
     # whatever window-growing strategy the code uses, every deleted vertex must be within tolerance of the segment that survives
     for _ in range(max(6, n // 40)):
